@@ -59,7 +59,17 @@ int expr_match_guard_tailrec(unsigned int syn_level, symtab * stab,
             expr_tailrec(syn_level, stab, match_value->guard_item.expr_value, op);
         break;
         case MATCH_GUARD_RECORD:
-            expr_tailrec(syn_level, stab, match_value->guard_record.expr_value, op);
+            /* the arm is checked in the table that holds the guard's bindings */
+            if (match_value->guard_record.guard->matchbinds != NULL &&
+                match_value->guard_record.guard->stab != NULL)
+            {
+                expr_tailrec(syn_level, match_value->guard_record.guard->stab,
+                             match_value->guard_record.expr_value, op);
+            }
+            else
+            {
+                expr_tailrec(syn_level, stab, match_value->guard_record.expr_value, op);
+            }
         break;
         case MATCH_GUARD_ELSE:
             expr_tailrec(syn_level, stab, match_value->guard_else.expr_value, op);
@@ -253,7 +263,17 @@ int expr_tailrec(unsigned int syn_level, symtab * stab,
     break;
     case EXPR_IFLET:
         expr_tailrec(syn_level, stab, value->iflet_value->expr_value, TAILREC_OP_SKIP);
-        expr_tailrec(syn_level, stab, value->iflet_value->then_value, op);
+        if (value->iflet_value->type == IFLET_TYPE_RECORD &&
+            value->iflet_value->guard_record->matchbinds != NULL &&
+            value->iflet_value->guard_record->stab != NULL)
+        {
+            expr_tailrec(syn_level, value->iflet_value->guard_record->stab,
+                         value->iflet_value->then_value, op);
+        }
+        else
+        {
+            expr_tailrec(syn_level, stab, value->iflet_value->then_value, op);
+        }
         expr_tailrec(syn_level, stab, value->iflet_value->else_value, op);
     break;
     case EXPR_MATCH:
